@@ -1,0 +1,10 @@
+// SPDX-License-Identifier: Apache-2.0
+// Copyright Authors of Cilium
+
+//go:build !verif
+
+package internal
+
+// verifLockHook is a no-op observation point used only by the external
+// verification harness (build tag "verif").
+func verifLockHook(event string, seq uint64) {}
